@@ -315,3 +315,35 @@ func vhC20PercentageTwice() {
 	vAssert(vAbsLE(x2, exact, exact/(1<<50)), "C20.percentage2.second-call-shows-its-own-value")
 	vCover("C20.percentage2.reach")
 }
+
+// the default moving average of the ETA/speed estimators (NewMedian): the value is the median of the last three
+// samples whatever was read in between (reading the value must not disturb which sample is evicted next)
+func vMedian3(a, b, c float64) float64 {
+	if a > b {
+		a, b = b, a
+	}
+	if b > c {
+		b = c
+	}
+	if a > b {
+		b = a
+	}
+	return b
+}
+
+func vhC20Median() {
+	m := NewMedian()
+	a, b, c, d, e := float64(vInt64("s0")), float64(vInt64("s1")), float64(vInt64("s2")), float64(vInt64("s3")), float64(vInt64("s4"))
+	vAssume(a >= 0 && b >= 0 && c >= 0 && d >= 0 && e >= 0)
+	vAssume(a <= 1<<50 && b <= 1<<50 && c <= 1<<50 && d <= 1<<50 && e <= 1<<50)
+	m.Add(a)
+	m.Add(b)
+	m.Add(c)
+	vAssert(m.Value() == vMedian3(a, b, c), "C20.median.of-first-three")
+	m.Add(d)
+	vAssert(m.Value() == vMedian3(b, c, d), "C20.median.oldest-sample-evicted")
+	vAssert(m.Value() == vMedian3(b, c, d), "C20.median.reading-twice-same-value")
+	m.Add(e)
+	vAssert(m.Value() == vMedian3(c, d, e), "C20.median.reading-does-not-disturb-eviction")
+	vCover("C20.median.reach")
+}
